@@ -357,7 +357,8 @@ def diff_results(rW, rR):
     return aspects, detail
 
 
-def classify(aspects, rW, rR, newdirs, reports_w=(), reports_r=(), exists=lambda p: False) -> str:
+def classify(aspects, rW, rR, newdirs, reports_w=(), reports_r=(), exists=lambda p: False,
+             old_edits=frozenset(), recent_edits=frozenset()) -> str:
     if rW.status != "done" and rR.status == "done":
         err = rW.error or ""
         if "Unexpected file hash update" in err:
@@ -381,6 +382,11 @@ def classify(aspects, rW, rR, newdirs, reports_w=(), reports_r=(), exists=lambda
         return "watch-removed-directory-unreported"
     if aspects == ["graph"] and order_only(rW, rR):
         return "watch-differs:external-update-order"
+    stale = {p for p in (upd_r | del_r) - (upd_w | del_w) if p in old_edits and p not in recent_edits}
+    if stale:
+        # the restart's rescan noticed a change that was made in an EARLIER round (while the node was
+        # detached, so that neither director cared then) and that the watcher has no item for
+        return "watch-differs:change-while-detached"
     return "watch-differs:" + "+".join(aspects)
 
 
@@ -483,7 +489,8 @@ def run_pair(ctx, project, kw, rounds_fn, seed, where, applied_log=None):
             aspects, detail = diff_results(rW, rR)
             if aspects:
                 sig = classify(aspects, rW, rR, newdirs_all(history[since:], newdirs), reports_w, reports_r,
-                               lambda p: os.path.isdir(os.path.join(simR.root, p)))
+                               lambda p: os.path.isdir(os.path.join(simR.root, p)),
+                               edited_paths(history[:since]), edited_paths(history[since:]))
                 what = (f"after edits {label}: watch rebuild and restart differ in {'+'.join(aspects)} "
                         f"(watch: {rW.status} {rW.returncode!r} ran {rW.commands}; restart: {rR.status} "
                         f"{rR.returncode!r} ran {rR.commands})")
@@ -500,6 +507,14 @@ def run_pair(ctx, project, kw, rounds_fn, seed, where, applied_log=None):
 
 
 DRAINED = 32
+
+
+def edited_paths(history) -> frozenset:
+    out = set()
+    for h in history:
+        for e in list(h.get("edits", [])) + [x for _, ee in h.get("external", []) for x in ee]:
+            out.update(str(x) for x in e[1:3] if isinstance(x, str) and "\n" not in x)
+    return frozenset(out)
 
 
 def newdirs_all(history, newdirs):
